@@ -19,8 +19,9 @@ from ..model import M, ModelRefuse
 
 LEVEL = 'model_checking'
 RULE = ('k<=3 operands x every ordered other-axis selection (1..3 of 3 ids) per operand x both axes x 3 '
-        'metadata configs x entry points x operand order permutations of the concatenated-axis pools; plus '
-        'every pair of operands sharing a concatenated-axis id; non-trivial = every operand has a non-zero '
+        'metadata configs x entry points x operand order permutations of the concatenated-axis pools (an operand '
+        'may have no other-axis id at all); plus every pair of 2 or 3 operands sharing a concatenated-axis id, '
+        'under the default and under an all-ignore error profile; non-trivial = every operand has a non-zero '
         'cell; distinct by (axis, selections, metadata config, entry point)')
 
 U = ['i2', 'i10', 'i9']      # natural order (i2, i9, i10) differs from string order (i10, i2, i9)
@@ -61,7 +62,7 @@ def cases(tier, seed):
     sels = selections()
     out = []
     for axis in ('sample', 'observation'):
-        for inv0 in sels:
+        for inv0 in sels + [[]]:        # [] = an operand with ids on the concatenated axis and none on the other
             out.append({'axis': axis, 'inv0': inv0, 'k': 1})
             for inv1 in sels:
                 out.append({'axis': axis, 'inv0': inv0, 'inv1': inv1, 'k': 2})
@@ -76,7 +77,7 @@ def check(case, acc, tmp):
     axis = case['axis']
     k = case['k']
     sels = selections()
-    thirds = sels if k == 3 else [None]
+    thirds = sels + [[]] if k == 3 else [None]
     for inv2 in thirds:
         invs = [case['inv0'], case.get('inv1'), inv2][:k]
         for mdname, mdcfg in MDCFG.items():
@@ -129,7 +130,7 @@ def check(case, acc, tmp):
                             for si_, s_ in enumerate(exp.c):
                                 if float(R.get_value_by_ids(o_, s_)) != exp.m[oi_][si_]:
                                     okid = False
-                            if [float(x) for x in R.data(o_, 'observation')] != \
+                            if exp.c and [float(x) for x in R.data(o_, 'observation')] != \
                                     [exp.m[oi_][exp.c.index(str(c_))] for c_ in R.ids()]:
                                 okid = False
                     except Exception:
@@ -147,25 +148,48 @@ def check(case, acc, tmp):
                     acc.outcomes.add(O.content_key(R))
                     if all(m.total() != 0 for m in mods):
                         acc.nontrivial.add(h64((axis, repr(invs), mdname, order, entry)))
-    # non-disjoint operand sets must be refused (k >= 2): every shared id
+    # non-disjoint operand sets must be refused (k >= 2): every shared id, every pair of operands that share it,
+    # under the default error profile and under one that lets duplicate ids through the constructor (the
+    # requirement is concat's own)
+    import biom.err as err
+    from biom.exception import TableException
     if k == 2:
-        for shared in POOLS[0]:
-            for pos in range(len(POOLS[1]) + 1):
-                ids1 = list(POOLS[1])
-                ids1.insert(pos, shared)
-                t0, _ = mk(POOLS[0], case['inv0'], 0, 0, 0, axis)
-                t1, _ = mk(ids1, case['inv1'], 1, 0, 0, axis)
+        combos = [((0, 1), shared, pos, None) for shared in POOLS[0] for pos in range(len(POOLS[1]) + 1)]
+    elif k == 3:
+        combos = [(pair, POOLS[pair[0]][0], pos, inv2) for pair in ((0, 1), (0, 2), (1, 2)) for pos in (0, -1)
+                  for inv2 in (case['inv0'][:1], case['inv1'], U)]
+    else:
+        combos = []
+    for (a, b), shared, pos, inv2 in combos:
+        invs = [case['inv0'], case.get('inv1'), inv2][:k]
+        for profile in ('default', 'all-ignore'):
+            for entry in ('Table.concat', 'biom.concat'):
+                tabs = []
+                for i in range(k):
+                    ids = list(POOLS[i])
+                    if i == b:
+                        ids.insert(pos if pos >= 0 else len(ids), shared)
+                    tabs.append(mk(ids, invs[i], i, 0, 0, axis)[0])
                 acc.trans += 1
                 acc.evals += 1
+                c = dict(case, pair=[a, b], shared=shared, pos=pos, inv2=inv2, profile=profile, entry=entry)
+                old = err.seterr(all='ignore') if profile != 'default' else None
                 try:
-                    t0.concat([t1], axis=axis)
-                    acc.violation('concat:non-disjoint-accepted', 'operands share %r on the %s axis but concat '
-                                  'did not raise' % (shared, axis), dict(case, shared=shared, pos=pos))
-                except DisjointIDError:
+                    if entry == 'Table.concat':
+                        tabs[0].concat(tabs[1:], axis=axis)
+                    else:
+                        biom.concat(tabs, axis=axis)
+                    acc.violation('concat:non-disjoint-accepted', 'operands %d and %d of %d share %r on the %s axis '
+                                  'but %s did not refuse (error profile: %s)' % (a, b, k, shared, axis, entry, profile), c)
+                except (DisjointIDError, TableException):
                     acc.count('clause:non-disjoint-refused')
+                    acc.count('clause:non-disjoint-refused:k%d:%s' % (k, profile))
                 except Exception as e:
-                    acc.violation('concat:raised:' + type(e).__name__, 'non-disjoint concat raised %s, not '
-                                  'DisjointIDError' % type(e).__name__, dict(case, shared=shared, pos=pos))
+                    acc.violation('concat:raised:' + type(e).__name__, 'non-disjoint concat raised %s, not a '
+                                  'refusal' % type(e).__name__, c)
+                finally:
+                    if old is not None:
+                        err.seterr(**old)
 
 
 def run(run):
@@ -175,7 +199,8 @@ def run(run):
                           'k3_restriction': None if not run.quick else 'k=3 only where the first two other-axis '
                           'selections have <= 4 ids together',
                           'hash_seed': __import__('os').environ.get('PYTHONHASHSEED')}
-    vacuity(run, ['clause:result', 'clause:non-disjoint-refused', 'entry:Table.concat', 'entry:biom.concat',
+    vacuity(run, ['clause:result', 'clause:non-disjoint-refused', 'clause:non-disjoint-refused:k3:all-ignore',
+                  'clause:non-disjoint-refused:k2:default', 'entry:Table.concat', 'entry:biom.concat',
                   'entry:single'])
     if not run.quick:
         hash_seed_reruns(run, (1, 2))
